@@ -40,7 +40,7 @@ from twisted.logger   import Logger
 # -----------
 
 from ..          import v31, PY2
-from ..error     import MQTTWindowError, QoSValueError, TopicTypeError
+from ..error     import MQTTWindowError, QoSValueError, TopicTypeError, MissingTopicError
 from ..pdu       import SUBSCRIBE, UNSUBSCRIBE, PUBACK, PUBREC, PUBCOMP, PUBLISH, PUBREL
 from .interfaces import IMQTTSubscriber, IMQTTPublisher
 from .interval   import Interval, IntervalLinear
@@ -531,6 +531,8 @@ class MQTTProtocol(MQTTBaseProtocol):
             raise MQTTWindowError("subscription requests exceeded limit", self._window)
         if not isinstance(request.topics, list):
             raise TopicTypeError(type(request.topics))
+        if not request.topics:      # a SUBSCRIBE without any topic filter is a protocol violation [MQTT-3.8.3-3]
+            raise MissingTopicError("subscribe")
         for (topic, qos) in request.topics:
             if not ( 0<= qos < 3):
                 raise QoSValueError("subscribe", qos)
@@ -545,6 +547,8 @@ class MQTTProtocol(MQTTBaseProtocol):
             raise MQTTWindowError("unsubscription requests exceeded limit", self._window)
         if not isinstance(request.topics, list):
             raise TopicTypeError(type(request.topics))
+        if not request.topics:      # so is an UNSUBSCRIBE [MQTT-3.10.3-2]
+            raise MissingTopicError("unsubscribe")
 
     # --------------------------
     # Helper methods (publisher)
